@@ -93,6 +93,8 @@ impl LSPDiag for DiagnosticItem {
 pub struct LSPFileReader {
     pub file_uris: HashMap<Uuid, RVDocument>,
     pub base_file: Option<Uuid>,
+    // included document -> the document that includes it
+    parents: HashMap<Uuid, Uuid>,
 }
 
 #[derive(Serialize, Deserialize, Clone)]
@@ -153,6 +155,20 @@ impl FileReader for LSPFileReader {
             .map(|(id, doc)| (*id, doc.text.clone()))
             .ok_or(FileReaderError::InternalFileNotFound)?;
 
+        // A document that is included by itself, or by a document it
+        // includes (directly or not), would be included for ever. The same
+        // document may still be included several times from different places.
+        let mut ancestor = parent_file;
+        while let Some(ancestor_id) = ancestor {
+            if ancestor_id == id {
+                return Err(FileReaderError::FileAlreadyRead(fulluri));
+            }
+            ancestor = self.parents.get(&ancestor_id).copied();
+        }
+        if let Some(parent) = parent_file {
+            self.parents.insert(id, parent);
+        }
+
         Ok((id, text))
     }
 
@@ -174,6 +190,7 @@ impl LSPFileReader {
         }
 
         LSPFileReader {
+            parents: HashMap::new(),
             file_uris: map,
             base_file,
         }
